@@ -300,7 +300,7 @@ func main() {
 			continue // oracle only: the model's evaluation (lists for heaps and pools) is quadratic in the size
 		}
 		// Flatten on the parsed query, walked along the schema the way the executor walks it
-		flat := "None"
+		flat := "(@None (option (list ftree)))"
 		if fb, err := gqlgen.Build(c.Spec, c.Modes[0]); err == nil {
 			if t, ok := gqlgen.FlatView(fb, text, q.Vars); ok {
 				flat = "(Some " + t + ")"
